@@ -18,6 +18,8 @@ EXPLANATION = (
     'update_grad writes scale*grad back once and clears the slot; every second-order call receives the current damping property.  '
     'Not decided: numerical accuracy / conditioning-scaled tolerance, torch\'s eigh/inv, dimensionally consistent scalar slips.')
 
+NOT_DECIDED = 'numerical accuracy / conditioning-scaled tolerance; torch eigh/inv; dimensionally consistent scalar slips'
+
 
 def run(ctx: Ctx) -> None:
     ctx.do(TR.rule_tt_solve)
